@@ -18,6 +18,26 @@ pub type Dump = Vec<(Vec<u8>, Vec<u8>)>;
 pub fn dump(s: &dyn Storage) -> Dump {
     s.range(None, None, Order::Ascending).collect()
 }
+/// Storage namespaces in use: plain item keys, or the length-prefixed first component of map keys.
+pub fn namespaces(d: &Dump) -> std::collections::BTreeSet<String> {
+    let mut out = std::collections::BTreeSet::new();
+    for (k, _) in d {
+        let ns = if k.len() > 2 && k[0] == 0 && (k[1] as usize) + 2 <= k.len() && k[1] > 0 { &k[2..2 + k[1] as usize] } else { &k[..] };
+        out.insert(String::from_utf8_lossy(ns).to_string());
+    }
+    out
+}
+/// The namespaces of the deployed staking contract (pinned: a rename orphans every stored record on upgrade).
+pub const DEPLOYED_NAMESPACES: [&str; 10] = ["admin", "batches", "config", "contract_info", "ibc_waiting_for_reply", "inflight", "pending_batch_id", "state", "unstake_requests", "unstake_requests_by_user"];
+
+/// Raw storage key of a `Map<u64, _>` entry, written from the cw-storage-plus key format (not through the crate's constants).
+pub fn raw_map_key(ns: &str, k: u64) -> Vec<u8> {
+    let mut key = vec![(ns.len() >> 8) as u8, (ns.len() & 0xff) as u8];
+    key.extend_from_slice(ns.as_bytes());
+    key.extend_from_slice(&k.to_be_bytes());
+    key
+}
+
 pub fn restore(s: &mut MockStorage, d: &Dump) {
     let keys: Vec<Vec<u8>> = s.range(None, None, Order::Ascending).map(|(k, _)| k).collect();
     for k in keys {
@@ -469,6 +489,7 @@ impl Chain {
         }
         let info = MessageInfo { sender: Addr::unchecked(sender), funds: funds.to_vec() };
         let env = self.env.clone();
+        self.sync_querier();
         let res = symcore::catch(|| call(self.deps.as_mut(), env, info));
         if let Err(p) = &res {
             if p.contains("SYMX") {
@@ -527,6 +548,31 @@ impl Chain {
         out
     }
 
+    /// Bank queries of the contract about its own balances are answered from the chain model (attached funds included,
+    /// as on chain): symbolic balances become amount handles, concrete replays evaluate the ground terms.
+    pub fn sync_querier(&mut self) {
+        let c = self.who.contract.clone();
+        let lst = self.who.lst_denom();
+        let mut coins = vec![];
+        for d in [crate::addr::NATIVE_DENOM.to_string(), lst] {
+            let term = self.bal(&c, &d);
+            let amount = if symcore::is_concrete_mode() {
+                match t::eval_ground(&term) {
+                    Some(v) => cosmwasm_std::Uint128::new(v),
+                    None => continue,
+                }
+            } else if term == "0" {
+                continue;
+            } else if let Ok(v) = term.parse::<u128>() {
+                cosmwasm_std::Uint128::new(v)
+            } else {
+                cosmwasm_std::Uint128::new(symcore::mk(term))
+            };
+            coins.push(Coin { denom: d, amount });
+        }
+        self.deps.querier.update_balance(c, coins);
+    }
+
     pub fn execute(&mut self, sender: &str, funds: &[Coin], msg: staking::msg::ExecuteMsg) -> Tx {
         let label = format!("{msg:?}");
         let label = label.split(|c| c == '{' || c == ' ').next().unwrap_or("").to_string();
@@ -570,6 +616,7 @@ impl Chain {
         };
         let snap = dump(&self.deps.storage);
         let env = self.env.clone();
+        self.sync_querier();
         let res = symcore::catch(|| staking::contract::sudo(self.deps.as_mut(), env, msg));
         if let Err(p) = &res {
             if p.contains("SYMX") {
